@@ -47,7 +47,9 @@ ASSUMPTIONS = [
 ]
 SHARD_TIMEOUT = {"quick": 400, "thorough": 1700}
 NSHARDS = 16
-KINDS = ["ret", "ret", "raise", "cb_run", "cb_sync", "check", "cb_sync_fatal", "cb_run_fatal"]
+F23_ABANDONED = "from_thread:callback-of-an-abandoned-thread-joins-a-left-cancelled-scope"
+KINDS = ["ret", "ret", "raise", "cb_run", "cb_sync", "check", "cb_sync_fatal", "cb_run_fatal",
+         "cb_run_lock", "cb_run_lock"]
 
 
 class Fatal(BaseException):
@@ -169,6 +171,39 @@ def execute(case: dict) -> dict:
         await checkpoint()
         return ("acb", x)
 
+    SPIN_LIMIT = 3000
+
+    async def acb_lock(x: int) -> tuple:
+        """takes an uncontended lock: completes after one yield, or - when the caller of
+        run_sync has been cancelled (the callback runs in the caller's scope) - is
+        cancelled.  What it must not do is neither: a watcher counts loop iterations and
+        breaks the callback out after SPIN_LIMIT of them (logical steps, not wall-clock)"""
+        import asyncio
+
+        loop = asyncio.get_running_loop()
+        me = asyncio.current_task()
+        state = {"n": 0, "done": False}
+
+        def tick() -> None:
+            if state["done"]:
+                return
+
+            state["n"] += 1
+            if state["n"] >= SPIN_LIMIT:
+                seen[x]["spun"] = state["n"]
+                me.cancel()  # native: gets it out of the loop it is stuck in
+            else:
+                loop.call_soon(tick)
+
+        loop.call_soon(tick)
+        try:
+            async with anyio.Lock():
+                pass
+        finally:
+            state["done"] = True
+
+        return ("acbl", x)
+
     def scb(x: int) -> tuple:
         return ("scb", x, threading.get_ident())
 
@@ -204,6 +239,11 @@ def execute(case: dict) -> dict:
                 elif spec["kind"] == "cb_run":
                     try:
                         seen[i]["cb"] = from_thread.run(acb, i)
+                    except BaseException as e:  # noqa: BLE001
+                        seen[i]["cb_exc"] = repr(e)
+                elif spec["kind"] == "cb_run_lock":
+                    try:
+                        seen[i]["cb"] = from_thread.run(acb_lock, i)
                     except BaseException as e:  # noqa: BLE001
                         seen[i]["cb_exc"] = repr(e)
                 elif spec["kind"] == "cb_sync":
@@ -477,6 +517,21 @@ def execute(case: dict) -> dict:
             elif "cb_exc" in seen[i] and cancel_before is None:
                 viol.append(("from_thread.run-failed", {"call": i, "exc": seen[i]["cb_exc"]}))
 
+        if spec["kind"] == "cb_run_lock" and started:
+            window("callback_acquires_uncontended_lock" +
+                   (":caller_cancelled_before" if cancel_before is not None else ""))  # fmt: skip
+            if "spun" in seen[i]:
+                # F23: the thread was abandoned (abandon_on_cancel=True, caller cancelled), so
+                # the scope its callbacks join has been left: nothing delivers to it any more
+                mech = F23_ABANDONED if spec["abandon"] and cancel_before is not None else None
+                viol.append(("from_thread.run-callback-neither-completes-nor-is-cancelled",
+                             {"call": i, "loop_iterations": seen[i]["spun"], "abandon": spec["abandon"],
+                              "caller_cancelled": cancel_before is not None}, mech))  # fmt: skip
+            elif seen[i].get("cb") != ("acbl", i) and "cb_exc" not in seen[i]:
+                viol.append(("from_thread.run-wrong-value", {"call": i, "got": seen[i].get("cb")}))
+            elif "cb_exc" in seen[i] and cancel_before is None:
+                viol.append(("from_thread.run-failed", {"call": i, "exc": seen[i]["cb_exc"]}))
+
         if spec["kind"] == "cb_sync" and started:
             cb = seen[i].get("cb")
             if "cb_exc" in seen[i]:
@@ -516,12 +571,13 @@ def judge(case: dict, col) -> None:  # noqa: ANN001
         col.inconclusive_because(res["inconclusive"]) if False else None
 
     seen = set()
-    for clause, detail in res["viol"]:
-        if clause in seen:
+    for clause, detail, *mech in res["viol"]:
+        m = mech[0] if mech else None
+        if (clause, m) in seen:
             continue
 
-        seen.add(clause)
-        col.violation(clause, {"detail": detail, "events": res["log_tail"]}, case)
+        seen.add((clause, m))
+        col.violation(clause, {"detail": detail, "events": res["log_tail"]}, case, m)
 
 
 def shards(tier: str, seed: int) -> list[dict]:
@@ -532,7 +588,7 @@ def run_shard(desc: dict, col) -> None:  # noqa: ANN001
     for i, case in enumerate(all_cases(desc["tier"], desc["seed"])):
         if i % desc["of"] == desc["shard"]:
             guarded(col, case, judge, case, col)
-            if col.violation_count >= 6:
+            if getattr(col, "unclassified_count", 0) >= 6:
                 break
 
 
